@@ -16,7 +16,7 @@ RandomAttr(k, salt) ==
   LET vt == RandomElement(IntTags \cup {BoolTag} \cup StrTags)
       n == RandomElement({1, 1, 2, 3}) IN
   [vt |-> vt, name |-> "extra-" \o ToString(k),
-   vals |-> IF vt \in IntTags THEN RandSeq({"0", "1", "65535", "-1"}, n, salt)
+   vals |-> IF vt \in IntTags THEN RandSeq({"0", "1", "65535", "-1", "128", "200", "40000", "2147483647", "-300", "-2147483648", "8388608"}, n, salt)
             ELSE IF vt = BoolTag THEN RandSeq({"true", "false"}, n, salt) ELSE RandSeq(StrVals, n, salt)]
 A(vt, name, v) == [vt |-> vt, name |-> name, vals |-> <<v>>]
 \* interleave the required attributes (in their order) with extras: extra k goes in front of required k
